@@ -71,6 +71,19 @@ s, h := str, 1
 YIELD(gets() + h)
 s, j := "hi", 2
 YIELD(gets() + j)
+type flag bool
+var ok flag
+getok := func() int { if ok { return tr.R(5, 1) }; return tr.R(5, 0) }
+YIELD(getok())
+ok, z := a < 5, 5
+YIELD(getok() + z)
+var sh uint8 = 1
+getsh := func() int { return tr.R(6, int(sh)) }
+YIELD(getsh())
+sh, y := 1<<uint(z-3), 2
+YIELD(getsh() + y)
+ok, sh, q := !ok, sh+1, 3
+YIELD(getok() + getsh() + q)
 RETNIL`, "partial-redeclaration")),
 		G("scope-partial-redeclaration-tuples-and-commaok", `
 m := map[int]int{1: 10}
